@@ -45,7 +45,7 @@ func (c14) Describe() engine.Info {
 	return engine.Info{
 		Rule: "scenario = one STAT source (HBlank / VBlank / OAM / LYC, or none) x LYC (every value 0..153 and 154, 200, 255, enumerated by index for the LYC source) x 3..4 frames, with 0..4 LCD off/on switches at random or mode-boundary cycles and STAT select writes (any sources) while the LCD is off. " +
 			"Oracle: after every cycle the set of requests seen (IF bits 0-1, cleared by the observer) equals the set predicted by the reference counter: VBlank once at the start of line 144; HBlank source at each mode-0 entry; VBlank source at line 144; OAM source at the start of lines 0-143 (line 144 and the switch-on instant: either); LYC source at the start of the line LY becomes LYC (switch-on instant with LYC=0: either); nothing while off. Signature = (source, request kind, line class, after-switch-on?)." +
-			" Two thirds of the scenarios add video noise (objects, scroll/window/palette writes around mode boundaries, LCDC low-bit rewrites, the constant LYC stored again, also inside its own line). Environment dimensions as C12. Class frames-unacknowledged: nobody clears IF (a set flag stays set, a flag appears only when its request is made, a due request is satisfied by a flag still set); one scenario in four selects another single source (or none) by a STAT store while the LCD is on, also inside the LYC line: the store itself requests nothing. Half of the schedules without random toggles switch the LCD off inside the LYC line and on again.",
+			" Two thirds of the scenarios add video noise (objects, scroll/window/palette writes around mode boundaries, LCDC low-bit rewrites, the constant LYC stored again, also inside its own line). Environment dimensions as C12. Class frames-unacknowledged: nobody clears IF (a set flag stays set, a flag appears only when its request is made, a due request is satisfied by a flag still set); one scenario in four selects another single source (or none) by a STAT store while the LCD is on, also inside the LYC line: the store itself requests nothing. Half of the schedules without random toggles switch the LCD off inside the LYC line and on again. Sources are also selected within two cycles of mode boundaries.",
 		Assumptions:    []string{"only single-source configurations are judged (STAT line blocking between sources is outside the statement)", "LYC is constant during a run"},
 		RequiredProbes: []string{"request_while_still_flagged", "stat_written_while_off", "vblank_request", "stat_hblank", "stat_vblank", "stat_oam", "stat_lyc", "lcd_switched", "oam_request_line0_after_vblank"},
 		RealComponents: realComponents, StubComponents: stubComponents,
